@@ -81,6 +81,12 @@ def try_setting(case, ctx, d):
         pass
     if resolved is None and not case.get("convert_anyway"):
         return "refused", None
+    sentinel = None
+    if resolved is None and (len(repr(bpv)) + sum(abs(int(b)) for b in bs)) % 2:
+        # a refused setting with something already stored under the output name: it must stay as it was
+        sentinel = b"previous content of the output path " * 3
+        with open(out, "wb") as fh:
+            fh.write(sentinel)
     try:
         if route == "cli":
             # the command-line entry point takes the same integers (negative rate = reciprocal, -1 = derive)
@@ -98,7 +104,11 @@ def try_setting(case, ctx, d):
             src = gen.make_values((5, 6, 9), "gauss", 6)
             conv.numpy_convert(src, out, bpv, bs)
     except Exception as e:
-        if os.path.exists(out):
+        if sentinel is not None:
+            if not os.path.exists(out) or open(out, "rb").read() != sentinel:
+                raise Violation("refusal-touched-existing-output", f"bpv={bpv!r} blockshape={bs}: {type(e).__name__}: {e}; the file already at the output path was changed")
+            os.remove(out)
+        elif os.path.exists(out):
             # "raises before producing an output": not even an empty file (it would replace whatever was there)
             raise Violation("refusal-left-output", f"bpv={bpv!r} blockshape={bs}: {type(e).__name__}: {e}; output file of {os.path.getsize(out)} bytes exists")
         if resolved is not None and library_exception(e) is None and route != "cli":
